@@ -16,6 +16,7 @@
 //!   cost  d=<f32>                                             -> bd bi pd pi   (box direct/inverted, point direct/inverted)
 //!   gate  mode=iou|maha mc= thr= a=ubox(candidate) b=ubox(track) [hist=ubox;ubox..] -> far= iou=|N dist=|N res=X|S:N|S:<bits>
 //!   baked lu= mi= ep=N|<usize>                                -> st=W|P|R|E
+//!   kst   a=xc,yc,ang,asp,h,c                                 -> mean=m0..m9 u=ubox|E ua= au= bb=l,t,w,h,c|E   (initiate -> state -> Universal2DBox / BoundingBox; == both orders)
 //!   vis   kind=E|C t=<f32> d=<f32>                            -> ok=0|1 w=<f32>   (VisualSortMetricType::is_ok / distance_to_weight)
 use similari::track::{MetricQuery, Observation, ObservationAttributes, ObservationMetric, TrackStatus};
 use similari::trackers::epoch_db::EpochDb;
@@ -305,6 +306,23 @@ fn ev_baked(lu: usize, mi: usize, ep: Option<usize>, has_db: bool) -> String {
         Err(_) => "E",
     };
     format!("baked lu={} mi={} ep={} db={} st={}", lu, mi, ep.map(|e| e.to_string()).unwrap_or_else(|| "N".into()), b01(has_db), st)
+}
+
+fn ev_kst(a: &UB) -> String {
+    let bx = a.real();
+    let f = Universal2DBoxKalmanFilter::default();
+    let state = f.initiate(&bx);
+    let (mean, _cov) = state.verif_raw();
+    let ms: Vec<String> = mean.iter().map(|x| b(*x)).collect();
+    let (us, ua, au) = match Universal2DBox::try_from(state) {
+        Ok(u) => (UB::of(&u).s(), b01(u == bx).to_string(), b01(bx == u).to_string()),
+        Err(_) => ("E".to_string(), "-".to_string(), "-".to_string()),
+    };
+    let bbs = match BoundingBox::try_from(state) {
+        Ok(r) => BB::of(&r).s(),
+        Err(_) => "E".to_string(),
+    };
+    format!("kst a={} mean={} u={} ua={} au={} bb={}", a.s(), ms.join(","), us, ua, au, bbs)
 }
 
 fn ev_vis(kind: &str, t: f32, d: f32) -> String {
@@ -599,6 +617,23 @@ fn gen(seed: u64, n: usize) {
         cm.c = c.c;
         println!("{}", ev_gate("maha", mc, thr, &cm, &hb, &hist));
     }
+    // ---- box -> Kalman state -> box: angle None / 0 / -0 / positive / NEGATIVE / beyond a full turn
+    for i in 0..n {
+        let mut u = gen_ub(&mut r);
+        u.c = 1.0;
+        let m = mag(&mut r, -3.0, 0.8, 23);
+        u.ang = match i % 8 {
+            0 => None,
+            1 => Some(0.0),
+            2 => Some(-0.0),
+            3 => Some(m),
+            4 => Some(-m),
+            5 => Some(-(2.0 * PI + m)),
+            6 => Some(2.0 * PI + m),
+            _ => Some(-(r.unit_f64() as f32) * 1e-6 - 1e-30),
+        };
+        println!("{}", ev_kst(&u));
+    }
     // ---- VisualSortMetricType: thresholds and distances on and around each other
     for i in 0..n {
         let kind = if i % 2 == 0 { "E" } else { "C" };
@@ -658,6 +693,7 @@ fn replay(path: &str) {
                 let hist: Vec<UB> = if g("hist") == "-" || g("hist").is_empty() { vec![] } else { g("hist").split(';').map(UB::parse).collect() };
                 ev_gate(&g("mode"), pf(&g("mc")), pf(&g("thr")), &UB::parse(&g("a")), &UB::parse(&g("b")), &hist)
             }
+            "kst" => ev_kst(&UB::parse(&g("a"))),
             "vis" => ev_vis(&g("kind"), pf(&g("t")), pf(&g("d"))),
             "baked" => ev_baked(g("lu").parse().unwrap(), g("mi").parse().unwrap(), if g("ep") == "N" { None } else { Some(g("ep").parse().unwrap()) }, g("db") == "1"),
             _ => format!("# unknown record kind: {}", kind),
